@@ -515,6 +515,28 @@ impl Future for IoFut {
                 this.stalled = 0;
                 this.awaited = true;
             }
+            // kind 7: a zero-length write (an empty chunk of a forwarding loop) before every real
+            // one: it has nothing to wait for and completes at once with Ok(0)
+            if this.kind == 7 && !this.awaited {
+                this.awaited = true;
+                let mut p = Pin::new(&mut *ad);
+                let r = if this.moved % 2 == 0 { p.as_mut().poll_write(cx, &[]) } else { p.as_mut().poll_write_vectored(cx, &[]) };
+                match r {
+                    Poll::Ready(Ok(0)) => {
+                        sim.probe("io_empty_write");
+                    }
+                    Poll::Ready(Err(e)) => {
+                        sim.trace(|| format!("    io task {} ends on error {}", this.task, e));
+                        this.finish(&sim);
+                        crate::exec::note_done(&sim, this.task);
+                        return Poll::Ready(this.task as u64);
+                    }
+                    other => {
+                        sim.violate("io.no_progress", vec!["empty_write".into()], format!("task {}: a zero-length write on adapter {} returned {:?} instead of Ready(Ok(0))", this.task, this.aid, other.map(|r| r.map_err(|e| e.to_string()))));
+                        return Poll::Pending;
+                    }
+                }
+            }
             let res = if reading {
                 let mut p = Pin::new(&mut *ad);
                 if this.kind == 4 {
